@@ -32,8 +32,55 @@ TIERS = {"quick": {"runs": 6000, "wall_cap": 240, "det_seeds": 8, "min_tests": 2
          "thorough": {"runs": 30000, "wall_cap": 3000, "det_seeds": 30, "min_tests": 600}}
 
 
+def _exec_huge(case):
+    """Closed forms at another scale: thousands of nodes, pairwise interactions only (the sums over all possible
+    hyperedges have a direct O(N K^2) expression there, evaluated with math.fsum)."""
+    from hypergraphx.communities.hy_mmsbm.model import HyMMSBM
+    from hypergraphx.linalg.linalg import hye_list_to_binary_incidence
+
+    N, K = case["N"], case["K"]
+    r = np.random.RandomState(case["seed"] % (2**32))
+    u = r.random_sample((N, K)) + 0.05
+    w = r.random_sample((K, K)) + 0.05
+    w = (w + w.T) / 2
+    stats = {"huge_closed_form_states": 1}
+    try:
+        try:
+            m = HyMMSBM(u=u.copy(), w=w.copy(), max_hye_size=2)
+            deg = np.asarray(m.expected_degree(per_node=True)).ravel()
+            avg = float(m.expected_degree(per_node=False))
+            dims = {int(k): float(v) for k, v in m.dimension_sequence(include_dyadic=True, expected=True).items()}
+            pairs = [tuple(sorted(r.choice(N, 2, replace=False).tolist())) for _ in range(300)]
+            pairs += [(0, N - 1), (N - 2, N - 1), (4095, 4096), (0, 4096)]
+            lam = np.asarray(m.poisson_params(hye_list_to_binary_incidence(pairs, shape=(N, len(pairs))))).ravel()
+        except Exception as e:  # noqa
+            raise Violation("C15/closed-form/raised", {"where": f"N={N}", "exception": repr(e)})
+        S = u.sum(axis=0)
+        uw = u @ w
+        want_deg = np.array([float(uw[i] @ (S - u[i])) for i in range(N)])  # kappa_2 = 1
+        if deg.shape != want_deg.shape or not np.allclose(deg, want_deg, rtol=1e-9, atol=0):
+            bad = int(np.argmax(np.abs(deg - want_deg))) if deg.shape == want_deg.shape else -1
+            raise Violation("C15/closed-form/expected_degree[per_node]", {"where": f"N={N}", "node": bad,
+                                                                          "library": float(deg[bad]) if bad >= 0 else None,
+                                                                          "definition": float(want_deg[bad]) if bad >= 0 else None})
+        if abs(avg - float(want_deg.mean())) > 1e-9 * abs(want_deg.mean()):
+            raise Violation("C15/closed-form/expected_degree[average]", {"where": f"N={N}", "library": avg, "definition": float(want_deg.mean())})
+        total = math.fsum(want_deg.tolist()) / 2
+        if set(dims) != {2} or abs(dims[2] - total) > 1e-9 * total:
+            raise Violation("C15/closed-form/dimension_sequence", {"where": f"N={N}", "library": short(dims), "definition": {2: total}})
+        want_lam = np.array([float(u[i] @ w @ u[j]) for i, j in pairs])
+        if not np.allclose(lam, want_lam, rtol=1e-9, atol=0):
+            raise Violation("C15/closed-form/poisson_params", {"where": f"N={N}", "library": short(lam.tolist()), "definition": short(want_lam.tolist())})
+    except Violation as v:
+        return {"violation": {"sig": v.sig, "detail": v.detail}, "digest": "violation:" + v.sig, "stats": {}, "sample": {"case": case}}
+    return {"violation": None, "digest": digest([N, K, float(avg)]), "stats": {"c15": stats}, "nontrivial": False,
+            "sample": {"case": case}}
+
+
 def generate(seed, tier):
     rng = random.Random(seed)
+    if rng.random() < 0.004:
+        return {"seed": seed, "huge": True, "N": rng.choice([4097, 5000, 6000, 8200]), "K": rng.randint(1, 3), "q": 0.0}
     N = rng.randint(4, 7)
     K = rng.randint(1, 3)
     D = rng.randint(2, min(N, 4))
@@ -281,6 +328,8 @@ def _fit(case, n_iter, h=None):
 
 def execute(case):
     sut()
+    if case.get("huge"):
+        return _exec_huge(case)
     stats = {"prefixes": 0, "ascent_checks": 0, "free_param_changed": 0}
     N, K = case["N"], case["K"]
     traj = []
@@ -383,6 +432,8 @@ def execute(case):
 
 
 def simplify(case):
+    if case.get("huge"):
+        return
     c = json.loads(json.dumps(case))
     if case.get("q", 0) > 0:
         c2 = dict(c)
